@@ -2,7 +2,7 @@
 C11, step 1 of Appendix B: generic chain lemmas over a predicate `P : Nat → Bool`
 ("this slot belongs to the chain"): characterisations of the scans `prevOcc`, `nextOcc`,
 `firstOcc`, `lastOcc`, and the effect of changing `P` at one point (removal / insertion).
-Instances later: the global chain (`P = occ s`) and, per variable, `P = occV s v`.
+Instances later: the global chain (`P = occAt s`) and, per variable, `P = occVAt s v`.
 -/
 import QmcModel.FastOps
 
